@@ -1,0 +1,86 @@
+// Copyright 2026 The Go Authors. All rights reserved.
+// Use of this source code is governed by a BSD-style
+// license that can be found in the LICENSE file.
+
+//go:build verif
+
+package impl
+
+import (
+	"sync/atomic"
+	"unsafe"
+
+	"google.golang.org/protobuf/internal/flags"
+	"google.golang.org/protobuf/reflect/protoreflect"
+	piface "google.golang.org/protobuf/runtime/protoiface"
+)
+
+// Verification hooks (build tag "verif"): event taps for runtime monitors.
+// With no sink installed each hook costs one atomic load.
+
+const (
+	verifLazyEnter = iota
+	verifLazyDecoded
+	verifLazyCAS
+)
+
+const (
+	verifInitEnter = iota
+	verifInitLocked
+	verifInitPublish
+)
+
+// VerifSink receives hook events. Any field may be nil.
+type VerifSink struct {
+	// Lazy is called from lazyUnmarshal: stage 0 on entry, 1 after the private
+	// copy was decoded (before the compare-and-swap), 2 after the
+	// compare-and-swap with mine = the pointer this call decoded and
+	// current = the pointer now stored in the message.
+	Lazy func(stage int, mi *MessageInfo, msg unsafe.Pointer, num int32, mine, current unsafe.Pointer)
+	// SizeCacheHit is called when sizePointer is about to return a cached
+	// size; recomputed is the size computed from scratch, with cache reads
+	// and cache stores suppressed.
+	SizeCacheHit func(mi *MessageInfo, msg unsafe.Pointer, cached, recomputed int)
+	// Init is called from MessageInfo.initOnce: stage 0 before taking the
+	// lock, 1 after taking it (init still to do), 2 just before initDone is
+	// published.
+	Init func(stage int, mi *MessageInfo)
+}
+
+var (
+	verifSink     atomic.Pointer[VerifSink]
+	verifNoStore_ atomic.Int32 // >0 while a monitor recomputes a size: no cache stores
+)
+
+// SetVerifSink installs (or with nil removes) the sink.
+func SetVerifSink(s *VerifSink) { verifSink.Store(s) }
+
+func verifLazy(stage int, mi *MessageInfo, p pointer, num protoreflect.FieldNumber, mine, current pointer) {
+	if s := verifSink.Load(); s != nil && s.Lazy != nil {
+		s.Lazy(stage, mi, p.p, int32(num), mine.p, current.p)
+	}
+}
+
+func verifNoStore() bool { return verifNoStore_.Load() != 0 }
+
+func verifSizeCacheHit(mi *MessageInfo, p pointer, opts marshalOptions, cached int) {
+	s := verifSink.Load()
+	if s == nil || s.SizeCacheHit == nil || verifNoStore() {
+		return
+	}
+	if flags.ProtoLegacy && mi.isMessageSet {
+		return
+	}
+	o := opts
+	o.flags &^= piface.MarshalUseCachedSize
+	verifNoStore_.Add(1)
+	re := mi.sizePointerSlow(p, o)
+	verifNoStore_.Add(-1)
+	s.SizeCacheHit(mi, p.p, cached, re)
+}
+
+func verifInit(stage int, mi *MessageInfo) {
+	if s := verifSink.Load(); s != nil && s.Init != nil {
+		s.Init(stage, mi)
+	}
+}
